@@ -91,7 +91,7 @@ def shape_flags(prog):
     def walk(x, top_loop, top_if, in_fun, in_gen=False, nested=False):
         if isinstance(x, dict):
             e = x.get("e")
-            if e in ("while", "for", "forin") and not in_fun:
+            if e in ("while", "for", "forin", "pfor") and not in_fun:
                 if top_if:
                     flags.add("file-level-loop-in-if")
                 top_loop = True
@@ -106,7 +106,7 @@ def shape_flags(prog):
                 flags.add("exit-in-exit-condition")
             if e == "list" and len(x.get("args", [])) == 1 and x["args"][0].get("e") == "if":
                 flags.add("singleton-bracket-if")
-            if e in ("for", "forin") and x.get("filt") and x["filt"].get("e") != "none" \
+            if e in ("for", "forin", "pfor") and x.get("filt") and x["filt"].get("e") != "none" \
                     and (assigned_names(x["body"]) & mentioned_names(x["filt"])):
                 flags.add("loop-filter-mentions-assigned-variable")
             if e == "try" and in_gen:
@@ -120,7 +120,7 @@ def shape_flags(prog):
             if e in ("lam", "gen"):
                 in_fun = True
                 nested = False
-            if e in ("if", "while", "for", "forin", "and", "or", "exit"):
+            if e in ("if", "while", "for", "forin", "pfor", "and", "or", "exit"):
                 nested = True       # (for the payload finding) the parts of a conditional / loop
             for v in x.values():
                 walk(v, top_loop, top_if, in_fun, in_gen, nested)
